@@ -138,7 +138,7 @@ PROPS = {
                    "arbitrary_precision numbers are modelled (string equality) but not exercised (configs d, po).",
     ),
     "C08": dict(
-        lean_targets=["SJ.Props.C08", "SJ.Audit.C08"],
+        lean_targets=["SJ.Props.C08", "SJ.Props.C08Parser", "SJ.Audit.C08"],
         configs=dict(quick=["d"], thorough=["d", "po"]),
         gen_keys=["pow10.", "Pow10"],
         rule="fixed corpus of range-limit, sign, u64/i64-boundary and exponent-overflow literals; every power of ten "
@@ -183,7 +183,11 @@ PROPS = {
                    "correctly rounded value (c08_exact_short, and c08_exact_short_parts for any significand < 2^53); every "
                    "result is finite and carries the literal's sign incl. -0 (c08_finite_signed); f32 = f64 result cast once "
                    "on the float path (c08_f32_once); overflow direction, zero/underflow and the 5-ulp bound are proved at "
-                   "f64_from_parts for table exponents (…_partial). The 309-entry POW10 table, the overflow! macro body and "
+                   "f64_from_parts for table exponents (…_partial). The parser machine of C01/C02 converts numbers with an "
+                   "independently written transcription (Model.Num.convertDefault); c08p_link proves it equal to the C08 model on "
+                   "everything the scanner produces, and SJ.Props.C08Parser restates the theorems about parseTop on every RFC 8259 "
+                   "number literal, every source, default configuration (c08p_parse_number, c08p_outcome, c08p_finite_signed, "
+                   "c08p_exact_short, c08p_*_partial). The 309-entry POW10 table, the overflow! macro body and "
                    "the loop constants are regenerated from the source and re-proved on every run; the model is bit-exact "
                    "against the crate on all generated literals and the exact-rational specification is evaluated on the "
                    "crate's own outputs.",
@@ -312,17 +316,19 @@ PROPS["C14"] = dict(
          "10^6-element array) each through Value (slice, reader) and IgnoredAny under catch_unwind.",
     trusted_base=MACHINE_TB,
     assumptions=["memory safety of compiled unsafe blocks, real stack consumption and allocator behaviour are runtime properties outside any model (partial by nature)"],
-    partial=["c14_no_fuel (number conversion never runs out of fuel) and the shape "
-             "invariant making the remaining model fallbacks unreachable are not proved yet",
+    partial=["the shape invariant making every remaining model fallback unreachable is proved inside the soundness development "
+             "(Proofs/Sound: Inv) but not restated per fallback",
              "typed targets / enum wrappers / stream depth restoration: not yet modelled"],
     technique="Lean 4 invariants over the byte-step machine (stack height < 128 for every reachable state, re-dispatch happens at most "
-              "once, termination by structural recursion) + pathological-input runs of the crate under catch_unwind",
+              "once, UTF-8 of every returned string, no fuel exhaustion, termination by structural recursion) + pathological-input "
+              "runs of the crate under catch_unwind (thorough: also under AddressSanitizer)",
     level_text="Machine-checked: c14_depth_bounded (every reachable state of a Value parse has at most 127 open containers, so the real "
                "recursion is bounded), c14_limit_hit (opening the 128th container is RecursionLimitExceeded at that byte), "
                "c14_again_once (the only unreachable!-style fallback of step is unreachable), c14_utf8 (every string and key of a "
                "returned value is valid UTF-8 - for the &str source, which uses str::from_utf8_unchecked, given that its input is "
                "valid UTF-8) and c14_utf8_at_closing_quote (the same at every closing quote reached, also in documents rejected "
-               "later); termination by construction. The crate "
+               "later), c14_no_fuel / c14_no_fuel_machine (the fuelled f64_from_parts loop of the number conversion never runs out of "
+               "fuel on anything the scanner produces; the float_roundtrip conversion has no fuel); termination by construction. The crate "
                "is run on random bytes, mutated documents, depth profiles and megabyte/10^6-deep inputs with catch_unwind.",
     level_note="Trusted: Lean kernel + 3 standard axioms; extract.py (remaining_depth = 128 is regenerated); harness/driver; machine "
                "model. Partial by nature: actual memory safety and stack usage of compiled code cannot be exhibited by a model.",
